@@ -38,7 +38,7 @@ def tb_engine(tb, file_data, mem0, on_syscall):
         '_ZN9Verilated9endOfEvalEP21VerilatedEvalMsgQueue': nop, '_ZN9Verilated20endOfThreadMTaskGutsEP21VerilatedEvalMsgQueue': nop,
         'pthread_mutex_lock': ret0, 'pthread_mutex_trylock': ret0, 'pthread_mutex_unlock': ret0,
         '_Z17VL_TESTPLUSARGS_IRKNSt7__cxx1112basic_stringIcSt11char_traitsIcESaIcEEE': ret0,
-        '_ZN8Vhex_pkg5finalEv': nop,
+        '_ZN8Vhex_pkg5finalEv': nop, '_ZN16VerilatedContextD1Ev': nop, '_ZN8Vhex_pkgD1Ev': nop, '_ZN8Vhex_pkgD0Ev': nop,
         '_Z11VL_FATAL_MTPKciS0_S0_': lambda E_, st, a: (_ for _ in ()).throw(Abort('VL_FATAL')),
         '_Z13handleSyscallN3hex7SyscallERKSt10unique_ptrI8Vhex_pkgSt14default_deleteIS2_EERib': on_syscall,
     })
